@@ -332,6 +332,22 @@ func (m *ownModel) ruleOwnershipTest(r *Rep, rule string) {
 				}
 			})
 			r.Check(why == "", rule, key, c.Pos(call.Pos()), "non-nil Get result returned only after ownedBy(reader) held", why)
+			// a cached block was left at an arbitrary in-block position by its last
+			// user: it is rewound before it is handed to the reader
+			isRewind := func(x ssa.Instruction) bool {
+				cl, ok := x.(*ssa.Call)
+				if !ok || !cl.Call.IsInvoke() || cl.Call.Method.Name() != "seek" || strip(cl.Call.Value) != ssa.Value(call) {
+					return false
+				}
+				k, isK := constInt(cl.Call.Args[0])
+				return isK && k == 0
+			}
+			r.Instance(rule, 1)
+			if bad, ok := mustPass(locOf(call), retBlk, isRewind, nonNilOnly); !ok {
+				r.Fail(rule, c.FnName(f)+"#cache-get-rewind", c.Pos(bad.Pos()), "a block obtained from the cache can be returned without seek(0): it keeps the in-block position its previous use left (a seek into it without a read), so sequential reading resumes mid-block")
+			} else {
+				r.Pass(rule, c.FnName(f)+"#cache-get-rewind", c.Pos(call.Pos()), "seek(0) on every path that returns the cached block")
+			}
 		})
 	}
 }
